@@ -35,6 +35,8 @@ func c11Symbols() (syms []string) {
 		// "##" in places where it is not a cosmetic marker, unsupported and invalid cosmetic forms
 		"127.0.0.1 tracker.test #ads##old", "||example.net/page#top##section", "0.0.0.0 hosts3.test  ## note", "example.org#?#.ext", "#@#.nodomain",
 		"example.org,~sub.example.org##.neg", "\texample.com##.tab-indented", "||example.org^$important ", "\ufeff||bom.test^", "\ufeff! comment after a byte-order mark",
+		// white space other than blank, tab, CR at the edges of a line; a CR that is not followed by LF
+		"||vt.test^\v", "\u00a0||nbsp.test^", "||nel.test^\u0085", "\r||cr-start.test^", "example.org##.ad\r.banner",
 	}
 	for _, n := range c11LongLens {
 		syms = append(syms, c11LongRule(n), c11LongComment(n))
